@@ -10,8 +10,9 @@ CLAIMED = {
     'C14': (
         'Coq proof over an executable model of spectrum_assignment.py (invariant by induction over request '
         'histories, per-request specification, totality) + step-by-step model/implementation correspondence (vm_compute) '
-        '+ property oracle on observed states + translator tie (six source primitives re-translated to Gallina on every '
-        'run and proved equal to the model)',
+        '+ property oracle on observed states + translator tie (pygen -> Gen/SpectrumGen.v: the primitives, the loop '
+        'conditions and the accept/block decisions of spectrum_assignment.py re-translated to Gallina on every run and '
+        'proved equal to the model; bookkeeping template-matched, fail-closed)',
         'Theorems in coq/theories/Props/C14.v hold for every request history, OMS set and usable-band layout of the '
         'Gallina model; the model is run against the real pth_assign_spectrum after every request of generated '
         'histories, and the property is re-evaluated on the implementation\'s own before/after bitmaps.',
@@ -238,10 +239,29 @@ for line in open(os.path.join(HERE, 'properties.jsonl')):
     TITLES[p['id']] = p['title']
 
 
+# property -> translator module -> generated file
+TIES = {
+    'C01': 'pygen_c01 -> Gen/SIGen.v', 'C02': 'pygen_c01 -> Gen/SIGen.v', 'C03': 'pygen_c03 -> Gen/GNGen.v',
+    'C04': 'pygen_c04 -> Gen/AmpGen.v', 'C05': 'pygen_c05 -> Gen/FiberGen.v', 'C06': 'pygen_c06 -> Gen/RoadmGen.v',
+    'C07': 'pygen_c07 -> Gen/ChannelsGen.v', 'C08': 'pygen_c08 -> Gen/ChainGen.v',
+    'C09': 'pygen_c09 -> Gen/PowerDesignGen.v', 'C10': 'pygen_c10 -> Gen/SelectGen.v',
+    'C11': 'pygen_c11 -> Gen/RouteGen.v', 'C12': 'pygen_c11 -> Gen/DisjointGen.v', 'C13': 'pygen_c13 -> Gen/VerdictGen.v',
+    'C14': 'pygen -> Gen/SpectrumGen.v', 'C15': 'pygen_c15 -> Gen/OmsGen.v', 'C16': 'pygen_c16 -> Gen/BatchGen.v',
+    'C17': 'pygen_c17 -> Gen/RedesignGen.v', 'C18': 'pygen_c18 -> Gen/YangGen.v + Model/YangPrecision.v',
+    'C19': 'pygen_c19 -> Gen/ResponseGen.v', 'C20': 'pygen_c20 -> Gen/SheetGen.v',
+}
+
+
 def main():
     checks = []
     for pid in sorted(CLAIMED):
         tech, text, note, ref = CLAIMED[pid]
+        if 'translator tie' not in tech:
+            tech += (' + translator tie (' + TIES[pid] + ': decision-critical source functions re-translated from '
+                     '/repo to Gallina on every run, proved equal to the model; surrounding bookkeeping template-matched, '
+                     'fail-closed)')
+        note += (' The translator (harness/pygen*.py) and its reading rules are part of the trusted base; a harmless '
+                 'rewrite of a tied function is reported as a broken tie (VIOLATION ... no-failing-input-found).')
         checks.append({
             'property_id': pid,
             'quick_cmd': f'./check {pid} --tier quick',
